@@ -685,7 +685,14 @@ def i_laws(ctx):
         else:
             hist.append(["fit", True, "c", [i_rand_dgm(ctx, r.randint(2, 5)) + [[0.0, 1.0], [2.0, 5.0]]]])
     coll = [i_rand_dgm(ctx) for _ in range(r.randint(1, 4))]
-    coll[0] = coll[0] + [[0.25, 1.0], [3.0, 7.5]]          # a positive spread for the fit
+    if r.random() < 0.15:
+        # no extent along the birth axis (H0 diagrams: every class is born at the same value), or one single point:
+        # the fitted range has width 0 there; it must still be THIS data's range, not what an earlier fit left behind
+        b0 = r.choice([0.0, 0.0, 0.5, -1.0])
+        coll = [[[b0, b0 + abs(q[1] - q[0]) + 0.25] for q in d] for d in coll] if r.random() < 0.7 else [[[b0, b0 + 1.5]]]
+        ctx.count("imager_laws:degenerate_extent")
+    else:
+        coll[0] = coll[0] + [[0.25, 1.0], [3.0, 7.5]]          # a positive spread for the fit
     if r.random() < 0.3:
         coll.insert(r.randint(1, len(coll)), [])
     skew = r.random() < 0.6                      # the flag travels with the data: the same value to fit, transform and fit_transform
